@@ -505,7 +505,7 @@ func (vc *VC) disciplineStore(x *ssa.Store, l *LV, v Term) {
 			en, es := vc.e.elemArr(st.Elem())
 			E := vc.arrCur(en, es)
 			q := fmt.Sprintf("(forall ((j Int)) (=> (and (<= 0 j) (< j (s_len %s))) (folded %s)))", v, vc.eltTerm(st.Elem(), E, v, "j"))
-			if ob := vc.check("folded-elems", x.Pos(), l.nnKey+" = "+vc.exprText(x.Pos()), q, []string{"C08"}); ob != nil {
+			if ob := vc.check("folded-elems", x.Pos(), l.nnKey+" = "+vc.exprText(x.Pos()), q, append([]string{"C08"}, vc.e.cs.FoldedKeyProps["elems:"+l.nnKey]...)); ob != nil {
 				ob.Detail = l.nnKey
 			}
 		}
@@ -694,8 +694,9 @@ func (vc *VC) convert(x *ssa.Convert) {
 			}
 		}
 	case fs == SStr && ts == SSlice:
-		n := vc.havocVal(x)
+		// allocate first: the facts of the fresh slice value refer to the allocation counter
 		arr := vc.allocRef("conv")
+		n := vc.havocVal(x)
 		vc.gfact(And(Eq(sx("s_arr", n), arr), Eq(sx("s_off", n), "0")))
 		if st, ok := to.(*types.Slice); ok {
 			if bt, ok := st.Elem().Underlying().(*types.Basic); ok && bt.Kind() == types.Uint8 {
